@@ -460,3 +460,52 @@ def c06(tier):
     out.append(T("ds_sum_partition_except", analytic("sum", "DS_4", win=wins["default"], partition_by=["Id_2"], partition_op="except", order_by=[("Id_2", "asc")]), n))
     out.append(T("filter_on_analytic", filter_(calc("DS_4", [("measure", "Me_9", analytic("sum", "Me_1", win=wins["default"], **P1))]), binop(">", "Me_9", 1)), n))
     return out
+
+
+# ------------------------------------------------------------------------------------------ C07 validation / hierarchy
+from vt.astb import check, check_datapoint, dpruleset, hrop, hruleset  # noqa: E402
+
+
+def c07(tier):
+    n = 2 if tier == "quick" else 3
+    out = []
+
+    def TS(tid, stmts, nrows=n, **kw):
+        d = dict(id=tid, ast=start(*stmts), structs=POOL, nrows=nrows)
+        d.update(kw)
+        return d
+    # check
+    out.append(TS("check_all", [assign("DS_r", check(binop(">", "DS_4", "DS_5")))]))
+    out.append(TS("check_invalid", [assign("DS_r", check(binop(">", "DS_4", "DS_5"), invalid=True))]))
+    out.append(TS("check_codes", [assign("DS_r", check(binop(">", "DS_4", 1), error_code="E1", error_level=2))]))
+    out.append(TS("check_codes_invalid", [assign("DS_r", check(binop("<=", "DS_4", "DS_5"), error_code="E1", error_level=2, invalid=True))]))
+    out.append(TS("check_imbalance", [assign("DS_r", check(binop(">=", "DS_4", "DS_5"), error_code="E1", error_level=3, imbalance=binop("-", "DS_4", "DS_5")))]))
+    out.append(TS("check_imbalance_invalid", [assign("DS_r", check(binop("=", "DS_4", "DS_5"), imbalance=binop("-", "DS_4", "DS_5"), invalid=True))]))
+    out.append(TS("check_bool_ds", [assign("DS_r", check("DS_B", error_code="E9"))]))
+    # check_datapoint
+    dpr = lambda: dpruleset("DPR_1", ["Me_1", "Me_2"], [("r1", binop(">", "Me_1", 0), "E1", 1), ("r2", ("when", binop(">", "Me_1", 5), binop("<", "Me_2", 10)), None, None)])  # noqa: E731
+    dpr1 = lambda: dpruleset("DPR_1", ["Me_1", "Me_2"], [(None, binop(">=", "Me_2", "Me_1"), "bad", 5)])  # noqa: E731
+    for o in (None, "invalid", "all", "all_measures"):
+        out.append(TS("dp_two_rules_%s" % o, [dpr(), assign("DS_r", check_datapoint("DS_1", "DPR_1", o))]))
+        out.append(TS("dp_unnamed_%s" % o, [dpr1(), assign("DS_r", check_datapoint("DS_1", "DPR_1", o))]))
+    out.append(TS("dp_when_null", [dpruleset("DPR_1", ["Me_1", "Me_2"], [("r1", ("when", unop("isnull", "Me_1"), binop(">", "Me_2", 0)), "E", 1)]),
+                                   assign("DS_r", check_datapoint("DS_1", "DPR_1", "all"))]))
+    out.append(TS("dp_bool_ops", [dpruleset("DPR_1", ["Me_1", "Me_2"], [("r1", binop("or", binop(">", "Me_1", 0), binop("<", "Me_2", 0)), "E", 1)]),
+                                  assign("DS_r", check_datapoint("DS_1", "DPR_1", "invalid"))]))
+    # hierarchical rulesets (code items over Id_2; strings are [a-c]{0,2})
+    hr_eq = lambda: hruleset("HR_1", "Id_2", [("R1", "a", "=", [("+", "b"), ("+", "c")], "E1", 4)])  # noqa: E731
+    hr_two = lambda: hruleset("HR_1", "Id_2", [("R1", "a", "=", [("+", "b"), ("+", "c")], "E1", 4), ("R2", "b", ">", [("+", "c")], None, None)])  # noqa: E731
+    hr_minus = lambda: hruleset("HR_1", "Id_2", [("R1", "a", ">=", [("+", "b"), ("-", "c")], "E2", None)])  # noqa: E731
+    hr_chain = lambda: hruleset("HR_1", "Id_2", [("R1", "a", "=", [("+", "b"), ("+", "c")], None, None), ("R2", "aa", "=", [("+", "a"), ("+", "b")], None, None)])  # noqa: E731
+    for o in (None, "invalid", "all", "all_measures"):
+        out.append(TS("ch_eq_%s" % o, [hr_eq(), assign("DS_r", hrop("check_hierarchy", "DS_4", "HR_1", "Id_2", None, None, o))], 3))
+    out.append(TS("ch_two_all", [hr_two(), assign("DS_r", hrop("check_hierarchy", "DS_4", "HR_1", "Id_2", None, None, "all"))], 3))
+    out.append(TS("ch_minus_invalid", [hr_minus(), assign("DS_r", hrop("check_hierarchy", "DS_4", "HR_1", "Id_2", None, None, "invalid"))], 3))
+    for mode in ("non_null", "always_null", "always_zero"):
+        out.append(TS("ch_eq_%s_all" % mode, [hr_eq(), assign("DS_r", hrop("check_hierarchy", "DS_4", "HR_1", "Id_2", mode, None, "all"))], 3))
+        out.append(TS("ch_eq_%s_invalid" % mode, [hr_eq(), assign("DS_r", hrop("check_hierarchy", "DS_4", "HR_1", "Id_2", mode, None, "invalid"))], 3))
+    out.append(TS("h_eq_computed", [hr_eq(), assign("DS_r", hrop("hierarchy", "DS_4", "HR_1", "Id_2"))], 3))
+    out.append(TS("h_eq_all", [hr_eq(), assign("DS_r", hrop("hierarchy", "DS_4", "HR_1", "Id_2", None, None, "all"))], 3))
+    out.append(TS("h_chain_computed", [hr_chain(), assign("DS_r", hrop("hierarchy", "DS_4", "HR_1", "Id_2"))], 3))
+    out.append(TS("h_minus_computed", [hruleset("HR_1", "Id_2", [("R1", "a", "=", [("+", "b"), ("-", "c")], None, None)]), assign("DS_r", hrop("hierarchy", "DS_4", "HR_1", "Id_2"))], 3))
+    return out
